@@ -352,7 +352,11 @@ func (flow OAuthFlow) MarshalYAML() (any, error) {
 	if x := flow.RefreshURL; x != "" {
 		m["refreshUrl"] = x
 	}
-	m["scopes"] = flow.Scopes
+	if x := flow.Scopes; x != nil {
+		m["scopes"] = x
+	} else {
+		m["scopes"] = StringMap{} // a required field: an empty object, not null, which reloads as an empty object
+	}
 	return m, nil
 }
 
